@@ -31,7 +31,7 @@ impl Property for C04 {
         "C04"
     }
     fn rule(&self) -> String {
-        "Cases: (LHS operand of any zoo type/length/provenance, RHS vector of any type/length/provenance or native integer, op in {&,|,^}, one of 6 operator forms) and (operand, ! owned|borrowed). Enumerated: all (n,a,m,b) with n,m<=4 (quick) / <=6 (thorough) for all 19x19 type pairings and 3 ops; all (n<=4/6,a) x integer lattice x 19 x 6 native types; every LHS length up to capacity (<=320) against an all-ones RHS of length n+1 / next word boundary / RHS capacity for all pairings; ! on all values n<=8 and every length with 3 value classes. Random: proptest. Oracle: per-bit Boolean function on bit lists (RHS zero-extended, cut at n) + observer battery. Non-trivial: result differs from a AND (RHS longer than LHS with a set bit at index >= n, or LHS longer than RHS with a set bit above m); for !: n not a multiple of the storage word and n>0. Distinct by hash of the whole case.".into()
+        "Cases: (LHS operand of any zoo type/length/provenance, RHS vector of any type/length/provenance or native integer, op in {&,|,^}, one of 6 operator forms) and (operand, ! owned|borrowed). Enumerated: all (n,a,m,b) with n,m<=4 (quick) / <=6 (thorough) for all 20x20 type pairings and 3 ops; all (n<=4/6,a) x integer lattice x 20 x 6 native types; every LHS length up to capacity (<=320) against an all-ones RHS of length n+1 / next word boundary / RHS capacity for all pairings; ! on all values n<=8 and every length with 3 value classes. Random: proptest. Oracle: per-bit Boolean function on bit lists (RHS zero-extended, cut at n) + observer battery. Non-trivial: result differs from a AND (RHS longer than LHS with a set bit at index >= n, or LHS longer than RHS with a set bit above m); for !: n not a multiple of the storage word and n>0. Distinct by hash of the whole case.".into()
     }
     fn random_cases(&self, tier: Tier) -> u64 {
         tier.pick(200000, 8000000)
@@ -46,9 +46,9 @@ impl Property for C04 {
     fn exhaustive_subspaces(&self, tier: Tier) -> Vec<String> {
         let k = tier.pick(4, 6);
         vec![
-            format!("all values of both operands for all lengths n,m<={} x 19x19 type pairings x {{&,|,^}} (form rotates)", k),
-            format!("all values for n<={} x integer lattice x 19 LHS types x 6 native RHS types x {{&,|,^}}", k),
-            "! (both forms) on all values for n<=8 (clipped to capacity) on all 19 types".into(),
+            format!("all values of both operands for all lengths n,m<={} x 20x20 type pairings x {{&,|,^}} (form rotates)", k),
+            format!("all values for n<={} x integer lattice x 20 LHS types x 6 native RHS types x {{&,|,^}}", k),
+            "! (both forms) on all values for n<=8 (clipped to capacity) on all 20 types".into(),
         ]
     }
     fn enumerate(&self, tier: Tier, sh: &mut Shard, f: &mut dyn FnMut(C04Case) -> bool) {
@@ -179,6 +179,7 @@ impl Property for C04 {
                 if let BuiltRhs::V(zb) = &rb {
                     unchanged(zb, &bbits, &what)?;
                 }
+                check_aliased(&za, a, b, *op, &what, st)?;
                 let n = a.len();
                 let m = b.len();
                 let rhs_high = m > n && (n..m).any(|i| bbits.at(i));
